@@ -356,6 +356,13 @@ func (runInfo *runInfoStruct) invokeMemberExpr(expr *ast.MemberExpr) {
 		return
 	}
 
+	if runInfo.rv.Kind() == reflect.Interface && runInfo.rv.IsNil() {
+		// nil (also a nil error a Go function returned) has no members
+		runInfo.err = newStringError(expr, "type interface does not support member operation")
+		runInfo.rv = nilValue
+		return
+	}
+
 	value := runInfo.rv.MethodByName(expr.Name)
 	if value.IsValid() {
 		runInfo.rv = value
